@@ -513,9 +513,9 @@ def gen_rcase(r, k):
     biases = []
     nb = r.randint(1, 4)
     for b in range(nb):
-        cand = ["harmonic", "harmonic", "walls", "linear", "meta", "meta", "histogram", "abf", "abf", "metarep"]
+        cand = ["harmonic", "harmonic", "walls", "linear", "meta", "meta", "histogram", "abf", "abf", "metarep", "opes", "opes", "abmd", "alb"]
         kind = r.choice(cand)
-        if kind in ("walls", "linear", "meta", "histogram", "abf", "metarep") and not scalar:
+        if kind in ("walls", "linear", "meta", "histogram", "abf", "metarep", "opes", "abmd", "alb") and not scalar:
             kind = "harmonic"
         abf_ok = [v for v in scalar if vars_[v]["kind"] in ("distance", "distz", "gyration", "angle")]   # total force available
         if kind == "abf" and not abf_ok:
@@ -552,6 +552,15 @@ def gen_rcase(r, k):
         elif kind == "histogram":
             vs = r.sample(scalar, min(len(scalar), r.choice([1, 2])))
             L = ["histogram {", "  name b%d" % b, "  colvars " + " ".join("v%d" % v for v in vs), "}"]
+        elif kind == "opes":
+            v = r.choice(scalar)
+            L = ["opes_metad {", "  name b%d" % b, "  colvars v%d" % v, "  newHillFrequency %d" % r.choice([1, 2]), "  barrier 10.0", "  gaussianSigma 0.3", "}"]
+        elif kind == "abmd":
+            v = r.choice(scalar)
+            L = ["abmd {", "  name b%d" % b, "  colvars v%d" % v, "  forceConstant 1.5", "  stoppingValue 9.0", "}"]
+        elif kind == "alb":
+            v = r.choice(scalar)
+            L = ["alb {", "  name b%d" % b, "  colvars v%d" % v, "  centers 3.0", "  updateFrequency 4", "}"]
         else:
             v = r.choice(abf_ok)
             L = ["abf {", "  name b%d" % b, "  colvars v%d" % v, "  fullSamples 2", "  historyFreq 0", "}"]
@@ -705,6 +714,98 @@ def rich_part(run, r, sim, cases, d, env=None):
                     os.remove(os.path.join(d, f))
     if cases:
         run.sample({"rich_config": rcase_config(cases[0]), "schedule_first_step": {q: cases[0]["steps"][0][q] for q in ("perm", "nt", "assign")}})
+
+
+# ------------------------------------------------------------------------------------------------
+# P cases: EVERY bias kind paired with a second force-applying bias whose energy changes from step to step, on the same
+# variable (an item of the bias loop that reads what another item writes in the same loop shows up only then), and the
+# order differential: the same history with one bias FIRST vs LAST in the executed order of every step.
+# ------------------------------------------------------------------------------------------------
+PAIR_KINDS = {
+    "opes": ["opes_metad {", "  name bK", "  colvars v0", "  newHillFrequency 2", "  barrier 10.0", "  gaussianSigma 0.3", "}"],
+    "opes2": ["opes_metad {", "  name bK", "  colvars v0 v1", "  newHillFrequency 1", "  barrier 8.0", "  gaussianSigma 0.3 0.4", "}"],
+    "meta": ["metadynamics {", "  name bK", "  colvars v0", "  hillWeight 0.25", "  hillWidth 2.0", "  newHillFrequency 2", "  useGrids off", "}"],
+    "metagrid": ["metadynamics {", "  name bK", "  colvars v0", "  hillWeight 0.25", "  hillWidth 2.0", "  newHillFrequency 2", "  useGrids on", "}"],
+    "metawt": ["metadynamics {", "  name bK", "  colvars v0", "  hillWeight 0.25", "  hillWidth 2.0", "  newHillFrequency 2", "  wellTempered on", "  biasTemperature 1500", "}"],
+    "abf": ["abf {", "  name bK", "  colvars v0", "  fullSamples 2", "  historyFreq 0", "}"],
+    "abmd": ["abmd {", "  name bK", "  colvars v0", "  forceConstant 1.5", "  stoppingValue 9.0", "}"],
+    "alb": ["alb {", "  name bK", "  colvars v0", "  centers 3.0", "  updateFrequency 4", "}"],
+    "histogram": ["histogram {", "  name bK", "  colvars v0", "}"],
+    "walls": ["harmonicWalls {", "  name bK", "  colvars v0", "  lowerWalls 2.0", "  upperWalls 5.0", "  forceConstant 2.0", "}"],
+    "linear": ["linear {", "  name bK", "  colvars v0", "  centers 1.0", "  forceConstant 0.5", "}"],
+    "moving": ["harmonic {", "  name bK", "  colvars v0", "  centers 2.0", "  targetCenters 5.0", "  targetNumSteps 8", "  forceConstant 1.0", "  outputAccumulatedWork on", "}"],
+}
+
+
+def gen_pair_case(r, k, kind):
+    natoms = 8
+    pos = [[V.dyadic(r, -1, 1, bits=4) + 2.0 * (a % 4), V.dyadic(r, -1, 1, bits=4) + 1.5 * (a // 4), V.dyadic(r, -1, 1, bits=4)] for a in range(natoms)]
+    vars_ = []
+    for v in range(2):
+        L = ["colvar {", "  name v%d" % v, "  lowerBoundary 0.0", "  upperBoundary 16.0", "  width 0.5", "  distance {",
+             "    group1 { atomNumbers %d %d }" % (4 * v + 1, 4 * v + 2), "    group2 { atomNumbers %d %d }" % (4 * v + 3, 4 * v + 4), "  }", "}"]
+        vars_.append({"kind": "distance", "lines": L, "scalar": True, "ncomp": 1, "tsf": 1})
+    kb = {"kind": kind, "lines": PAIR_KINDS[kind]}
+    hb = {"kind": "harmonic", "lines": ["harmonic {", "  name bH", "  colvars v0", "  centers %r" % V.dyadic(r, 1, 4, bits=2), "  forceConstant %r" % V.dyadic(r, 1, 4, bits=2), "}"]}
+    biases = [kb, hb] if r.random() < 0.5 else [hb, kb]
+    if r.random() < 0.4:
+        biases.append({"kind": "harmonic", "lines": ["harmonic {", "  name bH2", "  colvars v1", "  centers 2.0", "  forceConstant 1.5", "}"]})
+    steps = []
+    p = [list(q) for q in pos]
+    for t in range(r.randint(8, 11)):
+        for a in range(natoms):
+            for q in range(3):
+                p[a][q] += V.dyadic(r, -0.5, 0.5, bits=6)
+        perm = list(range(NPERM))
+        r.shuffle(perm)
+        nt = r.choice([1, 1, 2, 3])
+        steps.append({"pos": [list(q) for q in p], "eforce": [[V.dyadic(r, -2, 2, bits=3) for _ in range(3)] for _ in range(natoms)], "flags": [],
+                      "perm": perm, "nt": nt, "assign": []})
+    return {"id": 5000 + k, "natoms": natoms, "restartfreq": 0, "collect_gradient": None, "vars": vars_, "biases": biases, "use_script": False, "script": [],
+            "steps": steps, "smp": "perm", "binary": False, "pair_kind": kind}
+
+
+def order_differential(run, sim, cases, d):
+    """For every bias A of a configuration: the same history with A FIRST and with A LAST in the executed order of every step
+    (one thread).  Both are legal schedules of the bias loop; a difference means that an item of the loop reads what another item
+    writes in the same loop.  Robust to private state of the biases (hills, kernels, samples): both runs are complete histories."""
+    for c in cases:
+        nb = len(c["biases"])
+        for A in range(nb):
+            outs = []
+            for first in (True, False):
+                others = [i for i in range(NPERM) if i != A]
+                perm = ([A] + others) if first else ([i for i in others if i < nb] + [A] + [i for i in others if i >= nb])
+                c2 = dict(c)
+                c2["steps"] = [dict(st, perm=perm, nt=1, assign=[]) for st in c["steps"]]
+                tag = "D%d" % c["id"]
+                open(os.path.join(d, tag + ".registry.txt"), "w").close()
+                rc, o, e = run_batch(sim, rcase_scenario(c2, "perm", tag), d, timeout=300)
+                outs.append((strip_items(o), c2))
+                for f in os.listdir(d):
+                    if f.startswith(tag + "."):
+                        os.remove(os.path.join(d, f))
+            run.count("D%d:%d" % (c["id"], A), True)
+            run.dist("D:first-vs-last pairs of runs")
+            if not any(l.startswith("CONFIG err=ok") for l in outs[0][0]):
+                run.dist("D:config rejected (skipped)")
+                break
+            df = first_diff(outs[0][0], outs[1][0])
+            if df:
+                # the bias whose own energy differs first is the one that reads the others
+                reader = None
+                for x, y in zip(outs[0][0], outs[1][0]):
+                    if x != y and x.startswith("BIAS "):
+                        reader = x.split()[1]
+                        break
+                names = [[l for l in b["lines"] if "name " in l][0].split()[-1] for b in c["biases"]]
+                rk = c["biases"][names.index(reader)]["kind"] if reader in names else c["biases"][A]["kind"]
+                run.violation("cross-item-read:bias-loop:" + rk,
+                              "the same history with bias %s first and with it last in the executed order of the bias loop differs at step %d: `%s` vs `%s` "
+                              "(first differing bias energy: %s): an item of the bias loop reads what another item writes in the same loop; config:\n%s" % (
+                                  names[A], step_of_line(outs[0][0], df[0]), df[1][:120], df[2][:120], reader, "\n".join(rcase_config(c))),
+                              {"kind": "rcase", "case": outs[1][1]})
+                break
 
 
 # ------------------------------------------------------------------------------------------------
@@ -1192,7 +1293,7 @@ def derive_rich_footprints(sim, cases, d):
                 if w[1] == "bias" and w[2].isdigit() and int(w[2]) < len(c["biases"]):
                     b = c["biases"][int(w[2])]
                     stateless = b["kind"] in ("harmonic", "walls", "linear") and not any("targetCenters" in x for x in b["lines"])
-                    if not stateless and "NOTREPEATABLE" not in l:
+                    if not stateless and "NOTREPEATABLE" not in l and "RESTORED" not in l:
                         # a bias with private state (hills, samples, moving centres): the perturbation probe cannot tell what it reads
                         R = []
                         nrep += 1
@@ -1478,12 +1579,15 @@ def check(run):
     d = V.scratch("C12")
     gen = [gen_alternating(r, k) if k % 8 == 3 else gen_tcase(r, k) for k in range(200 if quick else 4000)]
     rc = [gen_rcase(r, k) for k in range(50 if quick else 1200)]
+    # every bias kind paired with a restraint whose energy varies (P cases)
+    pk = sorted(PAIR_KINDS)
+    pairs = [gen_pair_case(r, k, pk[k % len(pk)]) for k in range(len(pk) if quick else 6 * len(pk))]
     # footprints derived from the rebuilt binary -> coq/Gen/GenFootC12.v, BEFORE the proofs are checked
     derived, rich = [], []
     try:
         sim0 = V.build_prog("c12sim", PROGS["c12sim"])
         derived = derive_footprints(sim0, probe_cases(gen), d)
-        rich = derive_rich_footprints(sim0, rc[:6 if quick else 60], d)
+        rich = derive_rich_footprints(sim0, rc[:6 if quick else 60] + pairs[:len(pk)], d)
         nprobe = write_gen_footprints(derived, rich)
         kinds = derive_bias_kinds(sim0, d)
         write_gen_bias_kinds(kinds)
@@ -1531,6 +1635,11 @@ def check(run):
     for b0 in range(0, len(tc), B):
         tie_part(run, r, model, sim, tc[b0:b0 + B], d)
     rich_part(run, r, sim, rc, d)
+    # every bias kind paired with a restraint whose energy varies: random schedules vs serial, and the first-vs-last differential
+    for c in pairs:
+        run.dist("P:pair " + c["pair_kind"])
+    rich_part(run, r, sim, pairs, d)
+    order_differential(run, sim, pairs + rc[:4 if quick else 40], d)
     # the library's own OpenMP modes x thread counts: every component kind once (round robin), then random mixtures
     lc = [gen_lcase(r, k, kinds=[sorted(set(LKINDS))[k % len(set(LKINDS))]]) for k in range(len(set(LKINDS)))]
     lc += [gen_lcase(r, 1000 + k) for k in range(6 if quick else 300)]
@@ -1539,10 +1648,12 @@ def check(run):
     errbits_part(run, r, model, sim, d, 40 if quick else 400)
     run.cov["correspondence"].update({"t_scenarios": len(tc), "r_scenarios": len(rc)})
     # ThreadSanitizer with the std::thread executor: a few scenarios in the quick tier, more in the thorough tier
+    def with_threads(c):
+        return dict(c, steps=[dict(st, nt=max(2, st["nt"]), assign=[]) for st in c["steps"]])
     if quick:
-        tsan_part(run, r, tc[:8], rc[:6], d)
+        tsan_part(run, r, tc[:8], rc[:5] + [with_threads(c) for c in pairs if c["pair_kind"] in ("opes", "abf")], d)
     else:
-        tsan_part(run, r, tc[:120], rc[:150], d)
+        tsan_part(run, r, tc[:120], rc[:150] + [with_threads(c) for c in pairs], d)
         opes_threading_part(run, r, d)
 
 
